@@ -64,7 +64,7 @@ def alias(src, new_id):
     return d
 
 
-ALLOC_CORE = ["U64GroupedBitmap::*", "BtreeBitmap::*", "BuddyAllocator::*", "BS::*", "RegionTracker::*", "Allocators::*", "InMemoryState::*",
+ALLOC_CORE = ["U64GroupedBitmap::*", "BtreeBitmap::*", "BuddyAllocator::*", "BS::*", "RegionTracker::*", "Allocators::*", "InMemoryState::*", "DatabaseHeader::*",
               "PageNumber::*", "lemma_*", "bits_in_range", "buddy_page", "next_higher_order", "calculate_usable_order", "min_u8", "max_u32"]
 LAYOUT = ["RegionLayout::*", "DatabaseLayout::*", "round_up_to_multiple_of", "lemma_mul_le", "lemma_div_exact", "lemma_round_up"]
 
@@ -73,7 +73,7 @@ reg = {
         "alloc": {"overlay": "units/alloc.ovl", "canaries": ["canary_alloc"],
                   # executable functions defined in the overlay rather than extracted from /repo: rule helpers (T4) and, for
                   # now, the ASSUMED contract of alloc_lowest
-                  "helpers": ["xxh3_checksum", "div_ceil_u32", "pow2_u32", "vec_reverse", "min_u8", "max_u32", "alloc_lowest"]},
+                  "helpers": ["xxh3_checksum", "div_ceil_u32", "pow2_u32", "vec_reverse", "min_u8", "max_u32", "min_u32", "alloc_lowest"]},
         "types_sep": {"overlay": "units/types_sep.ovl", "canaries": ["canary_types_sep"], "helpers": ["common_prefix_len"]},
     },
     "kani_files": {
@@ -116,16 +116,18 @@ P["C14"] = {
     "verus": [{"unit": "alloc", "functions": ALLOC_CORE + LAYOUT}],
     "kani": [],
     "explanation": "Every clause of the statement is a postcondition over the set of free pages (free_set = {p | st().cov(0,p)}) of the REAL bodies of bitmap.rs, buddy_allocator.rs, region.rs and allocate_helper_retry, extracted from /repo on every run and verified by Verus for all sizes, orders and states: blocks handed out lie inside the region and were free (alloc/alloc_inner), refusal only when nothing of that order or larger is free (with lemma_bridge: no aligned free block exists), free makes exactly the block's pages free and merges with free buddies (I2), record_alloc marks exactly the block or refuses leaving the state unchanged, I1 (no page free at two orders) and I2 (buddies always merged) are established by new() and preserved; the region tracker never reports full a region holding a suitable free block (TRK) - established by Allocators::new, preserved by allocate_helper_retry.",
-    "not_decided": "the two tracker-update statements inside TransactionalMemory::free_helper (behind a Mutex); serialisation round trip (to_vec/from_bytes are external_body); the bodies of alloc_lowest and of the resize family (see assumptions)",
+    "not_decided": "the statements of TransactionalMemory::free_helper outside the extracted fragment (mutex, debug bookkeeping, cache invalidation); serialisation round trip (to_vec/from_bytes are external_body); the bodies of alloc_lowest and of the resize family (see assumptions)",
     "assumptions": ["BuddyAllocator::alloc_lowest is ASSUMED to satisfy alloc's contract (external_body) - not yet verified",
                     "BuddyAllocator::resize, BuddyAllocator::highest_free_order, BtreeBitmap::resize and RegionTracker::resize carry ASSUMED contracts (external_body: iterator adapters / iter_mut loops Verus cannot read); Allocators::resize_to is VERIFIED against them: it preserves wf and TRK, gives every region the size the new layout says, builds new regions for the capacity of a full region, and leaves unchanged regions untouched"],
 }
 P["C20"] = {
     "level": "proof",
-    "verus": [{"unit": "alloc", "functions": LAYOUT + ["BuddyAllocator::trailing_free_pages", "BuddyAllocator::find_free_order", "PageNumber::*"]}],
+    "verus": [{"unit": "alloc", "functions": LAYOUT + ["BuddyAllocator::trailing_free_pages", "BuddyAllocator::find_free_order", "PageNumber::*",
+                                              "InMemoryState::try_shrink", "InMemoryState::get_region", "InMemoryState::allocators", "InMemoryState::allocators_mut",
+                                              "DatabaseHeader::*", "Allocators::resize_to", "Allocators::lemma_resize_shrink", "Allocators::lemma_grow_step_*", "lemma_pow2_shift"]}],
     "kani": [K["C20-L1"], K["C20-L2a"], K["C20-L2b"], K["C20-L3a"], K["C20-L3b"]],
-    "explanation": "Kernel: (A1) every page of every region of a valid layout ends inside layout.len() (lemma_page_in_bounds over the real layout.rs accessors); (A2) reduce_last_region shortens the layout by exactly the pages cut (plus the region header when the region disappears) and recalculate(file_len) never extends past the file; (A3) calculate(d) offers at least d usable bytes; (A4-i) the pages trailing_free_pages reports are all free; (L1) the I/O-failure latch is inductive and nothing reaches the backend once it is set; (L2) close() reaches the backend once and nothing afterwards; (L3) the read-only wrapper forwards no mutation.",
-    "not_decided": "'exactly once' across Database / transaction hand-off on threads; failing opens through Builder; page numbers followed from a corrupted branch page; try_shrink's use of trailing_free_pages (A4-ii)",
+    "explanation": "Kernel: (A1) every page of every region of a valid layout ends inside layout.len() (lemma_page_in_bounds over the real layout.rs accessors); (A2) reduce_last_region shortens the layout by exactly the pages cut (plus the region header when the region disappears) and recalculate(file_len) never extends past the file; (A3) calculate(d) offers at least d usable bytes; (A4) never shrinks below a page still in use: the pages trailing_free_pages reports are all free, and the REAL try_shrink cuts at most those pages from the last region (reduce_last_region), hands resize_to a layout whose removed pages are all free, keeps the allocator state consistent with the header layout, and never lengthens the layout; (L1) the I/O-failure latch is inductive and nothing reaches the backend once it is set; (L2) close() reaches the backend once and nothing afterwards; (L3) the read-only wrapper forwards no mutation.",
+    "not_decided": "'exactly once' across Database / transaction hand-off on threads; failing opens through Builder; page numbers followed from a corrupted branch page; the storage.resize call that follows try_shrink in commit (whole-program)",
 }
 P["C08"] = {
     "level": "proof",
